@@ -222,3 +222,14 @@ func vStubRespSetBodyStream(r *fasthttp.Response, s io.Reader, size int) {
 	vGhostOf(r).bodyStream = s
 	vGhostOf(&r.Header).contentLength = size
 }
+
+//verif:replace (*github.com/valyala/fasthttp.RequestHeader).Peek
+func vStubRqhPeek(h *fasthttp.RequestHeader, key string) []byte {
+	g := vGhostOf(h)
+	for i := range g.keys {
+		if bytes.EqualFold(g.keys[i], []byte(key)) {
+			return g.vals[i]
+		}
+	}
+	return nil
+}
